@@ -24,6 +24,8 @@ def main():
         if prop not in ent["props"] or (ent.get("thorough_only") and tier != "thorough"):
             continue
         py = ent.get("python") or sys.executable
+        if py == "np":  # scenarios that need numpy: the overlay venv built by setup.sh
+            py = os.path.join(os.path.dirname(HERE), ".venv_np", "bin", "python")
         if not os.path.exists(py):
             continue
         cases += 1
@@ -37,9 +39,10 @@ def main():
             if ent.get("finding"):
                 known.setdefault(ent["finding"], False)
             continue
-        if rc != 1:
-            print(json.dumps(dict(violation=True, cases=cases, what="scenario %s did not run (exit %s): %s" % (name, rc, line), witness=name)))
-            return 1
+        if rc != 1 or "VIOLATION" not in out:
+            # a scenario that crashed (traceback: exit 1 without a VIOLATION line), hung or was killed decides nothing: harness error, never a violation
+            print(json.dumps(dict(violation=False, error=True, cases=cases, what="scenario %s did not run (exit %s): %s" % (name, rc, line), witness=name)))
+            return 3
         if ent.get("finding"):
             if not known.get(ent["finding"]):
                 known[ent["finding"]] = "%s: %s" % (name, line)
